@@ -65,7 +65,9 @@ Intervals = tuple[Interval, ...]
 
 def _next_pow2(x: float) -> float:
     assert x > 0.0
-    return 2.0 ** math.ceil(math.log2(x))
+    # Exact: `ceil(log2(x))` misrounds just above a power of two (log2 rounds down to the integer).
+    mantissa, exponent = math.frexp(x)  # x == mantissa * 2**exponent, 0.5 <= mantissa < 1
+    return math.ldexp(1.0, exponent - 1 if mantissa == 0.5 else exponent)
 
 
 def _floor_by(value: float, amount: float) -> float:
